@@ -158,11 +158,24 @@ def _evaluate_require(ast, file_path, package_lua, lua_path=None):
             # first require() the Lua interpreter encounters.)
 
             if not use_game_loop:
-                reqd_lua.root.stats[:] = [
+                removed = [
                     s for s in reqd_lua.root.stats
-                    if not isinstance(s, parser.StatFunction) or
-                    s.funcname.namepath[0].value not in GAME_LOOP_FUNCTION_NAMES]  # noqa: E501
-                reqd_lua.reparse(writer_cls=lua.LuaASTEchoWriter)
+                    if isinstance(s, parser.StatFunction) and
+                    s.funcname.namepath[0].value in GAME_LOOP_FUNCTION_NAMES]
+                if removed:
+                    # Rebuild the code without the tokens of the removed
+                    # statements. (Editing the tree alone leaves the token
+                    # stream the writers follow out of step with it.)
+                    toks = reqd_lua.tokens
+                    kept = []
+                    pos = 0
+                    for s in removed:
+                        kept.extend(toks[pos:s.start_pos])
+                        pos = s.end_pos
+                    kept.extend(toks[pos:])
+                    reqd_lua = lua.Lua.from_lines(
+                        [b''.join(t.code for t in kept)],
+                        version=game.DEFAULT_VERSION)
 
             package_lua[require_path] = reqd_lua
             _evaluate_require(reqd_lua, reqd_filepath,
